@@ -32,8 +32,12 @@ def texts(maxlen, markers):
     return out + ["Unnamed rule 1", "my filter", "Filter", "Description", "x: y", "été #1"]
 
 
-def reload(ns, text, markers=None):
+def reload(ns, text, markers=None, dirty=False):
     p = ns.parser.Parser()
+    if dirty:
+        # the same Parser object has just refused a script that carried marker comments of its own
+        m = markers or ("# Filter: ", "# Description: ")
+        p.parse('%sghost\n%sleft over\nfileinto "x";\nkeep;\n' % m)
     if not p.parse(text):
         return None, "rendering rejected by the parser: %s" % p.error
     kw = {}
@@ -66,6 +70,10 @@ def check_roundtrip(ns, fs, markers=None):
         return ("descriptions", "descriptions %r reloaded as %r" % ([x[2] for x in a], [x[2] for x in b]))
     if set(fs.requires) != set(fs2.requires):
         return ("requires", "requires %r reloaded as %r" % (fs.requires, fs2.requires))
+    fs2d, err = reload(ns, text1, markers, dirty=True)
+    if fs2d is None or snapshot(fs2d, ns) != b:
+        return ("reused-parser", "loaded through a Parser that had just refused another script: %s" % (
+            err or "%r instead of %r" % ([x[:3] for x in snapshot(fs2d, ns)], [x[:3] for x in b])))
     text2 = F.render(fs2)
     # "whose filters render to scripts that parse to the same trees" (in-memory representations may differ)
     t1 = seams.run_parse(text1)
@@ -87,7 +95,7 @@ def check_roundtrip(ns, fs, markers=None):
 def hist_events():
     ev = []
     for n in ("a", "b"):
-        for d in ("d1", "d3", "d5", "d6"):
+        for d in ("d1", "d3", "d5", "d6", "d7"):
             ev.append(("add", n, d))
         ev.append(("update", n, "c", "d2"))
         ev.append(("replace", n, ("fresh", "d4"), None, "desc é: x"))
